@@ -290,8 +290,12 @@ class Evaluator:
                 args = [self.ev(a) for a in e.args]
                 try:
                     return getattr(base, f.attr)(*args)
-                except (UnicodeDecodeError, UnicodeEncodeError) as ex:
+                except (UnicodeDecodeError, UnicodeEncodeError, KeyError, IndexError) as ex:
                     raise Raised(type(ex).__name__, e)
+                except ValueError as ex:
+                    if f.attr in ("remove", "index"):
+                        raise Raised("ValueError", e)
+                    raise Unknown(f"{f.attr}: {ex}")
                 except Exception as ex:
                     raise Unknown(f"{f.attr}: {ex}")
         # int.from_bytes(b, order, signed=...) / n.to_bytes(length, order, signed=...)
